@@ -41,6 +41,19 @@ CLAIMS = {
              'partition of the stream is a two-line meta-level argument (DESIGN 5/C04), not mechanised.',
         technique='contract-based deductive verification: loop invariant/variant VCs from the real AST against a splitter spec, z3',
         design='5/C04'),
+    'C03': dict(
+        level='other',
+        text='Deductive verification with one open known finding. All obligations generated from the real fragmenter generator (two '
+             'loops with inductive invariants and variants over a ghost summary of the yielded fragments), new_frame_fragment, '
+             'get_next_fragment, the un-fragmented path and every append step of FrameFragmentCache (fold step of the reassembly '
+             'lemma, frame clause for other streams) are discharged for all data/metadata lengths, all fragment sizes >= 64, both '
+             'framings and all five frame types - except the wire-size clause for fragments that carry metadata, which the tree '
+             'genuinely violates by up to 3 bytes (listed in known_findings.json; the bound size+3 is proved instead). Level is '
+             '"other" rather than "proof" because discharged < obligations on the unchanged tree.',
+        note=TRUST + 'Generator protocol (successive __next__ = successive yields) and io.BytesIO.read are assumed models. The fold '
+             'over the fragment sequence (induction on the number of fragments) is meta-level on top of the mechanised step.',
+        technique='contract-based deductive verification: generator/loop-invariant VCs from the real AST with ghost yield summary, z3',
+        design='5/C03'),
 }
 
 NOT_YET = 'contracts for this property are not built yet'
